@@ -1186,4 +1186,70 @@ theorem copyList_ok (cfg : Cfg) : ∀ (xs : List Tree), wfL (CopyKey cfg) xs = t
     simp [copyList, copyT_ok cfg x h.1, copyList_ok cfg r h.2]
 end
 
+/-! ### plain dicts -/
+
+theorem convItems_node (cfg : Cfg) : ∀ (items : List (Name × PVal)) (acc : Kvs) (t : Tree),
+    convItems cfg items acc = .ok t → ∃ kvs, t = .node kvs
+  | [], acc, t, h => by simp only [convItems, Except.ok.injEq] at h; exact ⟨acc, h.symm⟩
+  | (k, v) :: r, acc, t, h => by
+    simp only [convItems] at h
+    split at h
+    · simp at h
+    · exact convItems_node cfg r _ t h
+
+/-- a plain dict is converted into a level -/
+theorem conv_pdict_node (cfg : Cfg) (items : List (Name × PVal)) (t : Tree)
+    (h : conv cfg (.pdict items) = .ok t) : ∃ kvs, t = .node kvs := by
+  simp only [conv] at h
+  exact convItems_node cfg items [] t h
+
+theorem restTruthy_ne (rest : List Name) (fin : Option Err) (h : restTruthy rest fin = true) :
+    rest ≠ [] ∨ fin ≠ none := by
+  unfold restTruthy at h
+  by_cases h1 : rest = []
+  · subst h1
+    right
+    intro hf; subst hf; simp at h
+  · exact Or.inl h1
+
+/-- an assignment that reports success had a value to store -/
+theorem setK_ok_cv (cfg : Cfg) (kvs : Kvs) (segs : List Name) (fin : Option Err) (cv : Except Err Tree)
+    (kvs' : Kvs) (hne : segs ≠ [] ∨ fin ≠ none) (h : setK cfg kvs segs fin cv = (kvs', none)) :
+    ∃ tv, cv = .ok tv := by
+  fun_induction setK cfg kvs segs fin cv generalizing kvs'
+  all_goals try (simp at h; done)
+  case case2 => simp at hne
+  case case4 kvs m rest fin cv hr _ sub _ sub' e hs ih =>
+    simp only [Prod.mk.injEq] at h
+    rw [h.2] at hs
+    exact ih sub' (restTruthy_ne _ _ hr) hs
+  case case7 kvs m rest fin cv hr _ _ _ sub' e hs ih =>
+    simp only [Prod.mk.injEq] at h
+    rw [h.2] at hs
+    exact ih sub' (restTruthy_ne _ _ hr) hs
+  case case8 kvs m rest fin cv hr _ _ sub _ sub' e hs ih =>
+    simp only [Prod.mk.injEq] at h
+    rw [h.2] at hs
+    exact ih sub' (restTruthy_ne _ _ hr) hs
+  case case15 => exact ⟨_, rfl⟩
+  case case18 => exact ⟨_, rfl⟩
+
+/-- the items of a plain dict are assigned in order; the last one is what the final `__setitem__` did -/
+theorem convItems_snoc (cfg : Cfg) : ∀ (its : List (Name × PVal)) (k : Name) (v : PVal) (acc : Kvs) (t : Tree),
+    convItems cfg (its ++ [(k, v)]) acc = .ok t →
+    ∃ acc' sub, setK cfg acc' (chain cfg.fixResolve k).segs (chain cfg.fixResolve k).fin (conv cfg v) = (sub, none)
+      ∧ t = .node sub
+  | [], k, v, acc, t, h => by
+    simp only [List.nil_append, convItems] at h
+    split at h
+    · simp at h
+    · rename_i sub hs
+      simp only [Except.ok.injEq] at h
+      exact ⟨acc, sub, hs, h.symm⟩
+  | (k0, v0) :: r, k, v, acc, t, h => by
+    simp only [List.cons_append, convItems] at h
+    split at h
+    · simp at h
+    · exact convItems_snoc cfg r k v _ t h
+
 end Cpppo.Dotdict
